@@ -402,7 +402,12 @@ func AcceptSites(p *core.Prog, d Driver) []AcceptSite {
 			if sto, ok := ev.Instr.(*ssa.Store); ok {
 				if fa, ok := sto.Addr.(*ssa.FieldAddr); ok && fa.X == ssa.Value(al) {
 					fields[st.Field(fa.Field).Name()] = ev.Val
+					continue
 				}
+			}
+			// a store through another name of the same response (a constructor's result completed by its caller)
+			if ev.Addr != nil && ev.Addr.Op == "field" && len(ev.Addr.Args) == 1 && ev.Addr.Args[0].Op == "alloc" && ev.Addr.Args[0].Val == ssa.Value(al) {
+				fields[ev.Addr.Name] = ev.Val
 			}
 		}
 		if len(site.Paths) < 4000 {
